@@ -378,6 +378,25 @@ def gen(rng, idx, tier):
                     ren[n] = new
                 rename_glyphs(glyphs, ren)
                 select = gen_select(rng, glyphs)
+            if rng.random() < 0.3:
+                # a mark stacked on a mark: which of the two is the base is decided by the
+                # lower-left corners of their outlines (pairs that rank differently under other
+                # distance measures included)
+                sq = lambda w, h: [[[0, 0, "line"], [w, 0, "line"], [w, h, "line"], [0, h, "line"]]]  # noqa: E731
+                new_glyph("dotmk", width=0, contours=sq(60, 60),
+                          anchors=[{"name": "_top", "x": 30, "y": -10}, {"name": "top", "x": 30, "y": 90}])
+                new_glyph("tildemk", width=0, contours=sq(120, 40),
+                          anchors=[{"name": "_top", "x": 60, "y": -12}, {"name": "top", "x": 60, "y": 70}])
+                o1, o2 = rng.choice([((-150, 150), (0, 250)), ((0, 250), (-150, 150)),
+                                     ((120, -90), (10, 170)), ((0, 0), (0, 120)), ((-200, 40), (30, 210)),
+                                     ((-96, 128), (0, 168)), ((40, -180), (-130, 130))])
+                cs = [{"base": "dotmk", "t": [1, 0, 0, 1, o1[0], o1[1]]},
+                      {"base": "tildemk", "t": [1, 0, 0, 1, o2[0], o2[1]]}]
+                if rng.random() < 0.5:
+                    cs.reverse()
+                new_glyph("dotmk_tildemk", width=0, components=cs)
+                if not selected(glyphs[-1], select):
+                    select = {"kind": "all"}
         cats = {}
         for g in glyphs:
             if any(a["name"].startswith("_") for a in g["anchors"]) and rng.random() < 0.5:
@@ -816,6 +835,32 @@ def _check_tf_with(ctx, before, after, included, active, m, B, A, fscale):
 # propagate anchors
 
 
+def _promoted_mark(glyphs, comps):
+    """The component whose transformed outline's (xMin, yMin) is closest to the origin (the
+    offset itself for an outline-less base); None when the two best are (nearly) tied."""
+    from fontTools.pens.boundsPen import BoundsPen
+    from fontTools.pens.pointPen import PointToSegmentPen
+    ranked = []
+    for c_ in comps:
+        bp = BoundsPen(None)
+        pen = PointToSegmentPen(bp)
+        try:
+            for pts, _flip in R.resolve(glyphs, c_["base"], R.mat(c_["t"])):
+                pen.beginPath()
+                for q in pts:
+                    pen.addPoint((float(q[0]), float(q[1])), segmentType=q[2], smooth=bool(q[3]))
+                pen.endPath()
+        except Exception:  # noqa: BLE001 - cyclic or otherwise unusable: no opinion
+            return None
+        b = bp.bounds
+        corner = (float(c_["t"][4]), float(c_["t"][5])) if b is None else (b[0], b[1])
+        ranked.append((corner[0] ** 2 + corner[1] ** 2, id(c_), c_))
+    ranked.sort(key=lambda r_: r_[0])
+    if len(ranked) >= 2 and abs(ranked[0][0] - ranked[1][0]) <= 1e-6 * max(1.0, ranked[1][0]):
+        return None
+    return ranked[0][2] if ranked else None
+
+
 def check_propagate(ctx, before, after, included, second):
     case = ctx.case
     dev = TOL_DECOMP * font_scale(before, S.Snap(before))
@@ -896,12 +941,39 @@ def check_propagate(ctx, before, after, included, second):
             # ('x' next to '_x': stacking); its other plain anchors are not the composite's.
             # Judged when the composite has a non-mark component at all (otherwise the filter's
             # choice of a base among marks is its own heuristic).
-            if x["name"].startswith("_"):
-                continue
             def marklike(c_):
                 return any(a_["name"].startswith("_") for a_ in after[c_["base"]]["anchors"])
             comps = [c_ for c_ in g["components"] if c_["base"] in after]
-            if not comps or all(marklike(c_) for c_ in comps):
+            if x["name"].startswith("_") and not (
+                    comps and all(marklike(c_) for c_ in comps) and "_" in name[1:]):
+                continue
+            if comps and all(marklike(c_) for c_ in comps) and "_" in name[1:] \
+                    and not name.startswith("_") and not S._NUMBERED.match(x["name"]):
+                # a mark made of marks ("dotcomb_tildecomb"): the documented choice of its base is
+                # the component whose outline's lower-left corner is closest to the origin; the
+                # anchors come from that one, moved onto a stacked mark's own where it attaches
+                prom = _promoted_mark(before, comps)
+                if prom is None:
+                    ctx.bump("mark_ligatures_with_tied_candidates_not_judged")
+                    continue
+                allowed = set()
+                for c_ in comps:
+                    names_c = {a_["name"] for a_ in after[c_["base"]]["anchors"]}
+                    t_ = R.mat(c_["t"])
+                    for a_ in after[c_["base"]]["anchors"]:
+                        if a_["name"] == x["name"] and (c_ is prom or ("_" + a_["name"]) in names_c):
+                            allowed.add(R.apply(t_, R.fr(a_["x"]), R.fr(a_["y"])))
+                ctx.bump("mark_ligature_anchors_judged_against_the_component_closest_to_the_origin")
+                if case["exact"]:
+                    ok3 = (px, py) in allowed
+                else:
+                    ok3 = any(abs(px - cx) <= dev and abs(py - cy) <= dev for cx, cy in allowed)
+                if not ok3:
+                    ctx.bad("mark_ligature_anchor_not_from_closest_component", glyph=name, anchor=x,
+                            closest=prom["base"], components=g["components"],
+                            allowed=sorted([float(cx), float(cy)] for cx, cy in allowed)[:8])
+                continue
+            if not comps or all(marklike(c_) for c_ in comps) or x["name"].startswith("_"):
                 continue
             wanted = [x["name"]]
             m_ = S._NUMBERED.match(x["name"])
